@@ -211,22 +211,26 @@ def finish(pid, level, coverage, violations, assumptions=None, inconclusive=None
     sys.exit(0)
 
 
-def build_car():
+def build_car(link="workspace"):
     """Builds the `car` CLI from /repo/cmd against /repo and /repo/v2 (scratch -modfile with replace
-    directives: /repo itself is never written, not even go.sum)."""
-    out = os.path.join(scratch(), "car")
+    directives: /repo itself is never written, not even go.sum). link="released": against the released
+    library versions that cmd/go.mod names (module cache) -- how the repository's own build links it."""
+    if os.environ.get("VERIF_CLI_LINK") == "released":
+        link = "released"
+    out = os.path.join(scratch(), "car" if link == "workspace" else "car-released")
     if os.path.exists(out):
         return out
-    mf = os.path.join(scratch(), "car.mod")
+    mf = os.path.join(scratch(), "car-%s.mod" % link)
     gm = open(os.path.join(REPO, "cmd", "go.mod")).read()
-    gm += "\nreplace github.com/ipld/go-car => %s\n\nreplace github.com/ipld/go-car/v2 => %s\n" % (REPO, os.path.join(REPO, "v2"))
+    if link != "released":
+        gm += "\nreplace github.com/ipld/go-car => %s\n\nreplace github.com/ipld/go-car/v2 => %s\n" % (REPO, os.path.join(REPO, "v2"))
     open(mf, "w").write(gm)
     sums = set()
     for m in ("", "v2", "cmd"):
         p = os.path.join(REPO, m, "go.sum")
         if os.path.exists(p):
             sums.update(open(p).read().splitlines())
-    open(os.path.join(scratch(), "car.sum"), "w").write("\n".join(sorted(s for s in sums if s.strip())) + "\n")
+    open(os.path.join(scratch(), "car-%s.sum" % link), "w").write("\n".join(sorted(s for s in sums if s.strip())) + "\n")
     cov = ["-cover", "-coverpkg=github.com/ipld/go-car/...,github.com/ipld/go-car/v2/...,github.com/ipld/go-car/cmd/..."] \
         if os.environ.get("VERIF_COVER") else []
     p = run(["go", "build"] + cov + ["-modfile", mf, "-o", out, "./car"], cwd=os.path.join(REPO, "cmd"), timeout=900)
